@@ -114,11 +114,11 @@ type symState struct {
 	slices    map[ssa.Value]symSlice
 	bools     map[ssa.Value]bool
 	mem       map[*ssa.Alloc][]sval
-	out       []sval               // bytes written, in order
-	nread     int                  // bytes read
-	pstores   map[ssa.Value]sval   // stores through pointer parameters
-	rets      []sval               // integer results (nil entries for non-integer results)
-	readTuple map[ssa.Value]sval   // ReadByte calls: the byte
+	out       []sval             // bytes written, in order
+	nread     int                // bytes read
+	pstores   map[ssa.Value]sval // stores through pointer parameters
+	rets      []sval             // integer results (nil entries for non-integer results)
+	readTuple map[ssa.Value]sval // ReadByte calls: the byte
 	why       string
 	fresh     int
 }
